@@ -35,7 +35,10 @@ Record st := mkst {
   out : list Z;    (* bytes handed to fwrite, most recent first (File mode) *)
   viol : bool;     (* a store outside the buffer happened *)
   term : bool;     (* buf[p] = 0 holds (set by the flush functions, cleared by any other store) *)
-  tr : list Z      (* p - pflush at every call of ctx->flush, most recent first (correspondence only) *)
+  tr : list Z;     (* p - pflush at every call of ctx->flush, most recent first (diagnostic only) *)
+  orc : list Z;    (* ORACLE: what FLATCC_JSON_PRINTER_REALLOC hands back at the next enlargements of the growing buffer:
+                      the new block size, 0 = allocation failure; when exhausted the pinned policy (doubling) applies *)
+  obad : bool      (* an oracle size did not restore a full reserve above the old block (new < old + reserve) *)
 }.
 
 Definition len (l : list Z) : Z := Z.of_nat (length l).
@@ -48,30 +51,30 @@ Definition wr (s : st) (n : Z) : bool := viol s || negb (inside s n).
 
 (* *ctx->p++ = c *)
 Definition put (s : st) (c : Z) : st :=
-  mkst (md s) (size s) (fsz s) (p s + 1) (c :: cur s) (total s) (err s) (out s) (wr s 1) false (tr s).
+  mkst (md s) (size s) (fsz s) (p s + 1) (c :: cur s) (total s) (err s) (out s) (wr s 1) false (tr s) (orc s) (obad s).
 (* *ctx->p = c (c <> 0) without advancing: print_space, print_symbol with unquote, enum_flag, delimit *)
 Definition poke (s : st) : st :=
-  mkst (md s) (size s) (fsz s) (p s) (cur s) (total s) (err s) (out s) (wr s 1) false (tr s).
+  mkst (md s) (size s) (fsz s) (p s) (cur s) (total s) (err s) (out s) (wr s 1) false (tr s) (orc s) (obad s).
 (* *ctx->p = '\0' *)
 Definition poke0 (s : st) : st :=
-  mkst (md s) (size s) (fsz s) (p s) (cur s) (total s) (err s) (out s) (wr s 1) true (tr s).
+  mkst (md s) (size s) (fsz s) (p s) (cur s) (total s) (err s) (out s) (wr s 1) true (tr s) (orc s) (obad s).
 (* memcpy(ctx->p, l, n); ctx->p += n *)
 Definition puts (s : st) (l : list Z) : st := fold_left put l s.
 Definition set_viol (s : st) : st :=
-  mkst (md s) (size s) (fsz s) (p s) (cur s) (total s) (err s) (out s) true (term s) (tr s).
+  mkst (md s) (size s) (fsz s) (p s) (cur s) (total s) (err s) (out s) true (term s) (tr s) (orc s) (obad s).
 
 (* flatcc_json_printer_set_error *)
 Definition set_err (s : st) (e : Z) : st :=
-  mkst (md s) (size s) (fsz s) (p s) (cur s) (total s) (if err s =? 0 then e else err s) (out s) (viol s) (term s) (tr s).
+  mkst (md s) (size s) (fsz s) (p s) (cur s) (total s) (if err s =? 0 then e else err s) (out s) (viol s) (term s) (tr s) (orc s) (obad s).
 
 Definition trace (s : st) : st :=
-  mkst (md s) (size s) (fsz s) (p s) (cur s) (total s) (err s) (out s) (viol s) (term s) ((p s - fsz s) :: tr s).
+  mkst (md s) (size s) (fsz s) (p s) (cur s) (total s) (err s) (out s) (viol s) (term s) ((p s - fsz s) :: tr s) (orc s) (obad s).
 
 (* __flatcc_json_printer_flush_buffer *)
 Definition flush_fixed (s : st) : st :=
   poke0 (if fsz s <=? p s
          then mkst (md s) (size s) (fsz s) 0 [] (total s + p s) (if err s =? 0 then PE_overflow else err s)
-                   (out s) (viol s) (term s) (tr s)
+                   (out s) (viol s) (term s) (tr s) (orc s) (obad s)
          else s).
 
 (* __flatcc_json_printer_flush: fwrite appends to [out]; the spill above pflush moves to the buffer start *)
@@ -79,14 +82,26 @@ Definition flush_file (all : bool) (s : st) : st :=
   poke0 (if negb all && (fsz s <=? p s)
          then let spill := Z.to_nat (p s - fsz s) in
               mkst (md s) (size s) (fsz s) (p s - fsz s) (firstn spill (cur s)) (total s + fsz s) (err s)
-                   (skipn spill (cur s) ++ out s) (viol s) (term s) (tr s)
-         else mkst (md s) (size s) (fsz s) 0 [] (total s + p s) (err s) (cur s ++ out s) (viol s) (term s) (tr s)).
+                   (skipn spill (cur s) ++ out s) (viol s) (term s) (tr s) (orc s) (obad s)
+         else mkst (md s) (size s) (fsz s) 0 [] (total s + p s) (err s) (cur s ++ out s) (viol s) (term s) (tr s) (orc s) (obad s)).
 
-(* __flatcc_json_printer_flush_dynamic_buffer, realloc succeeding *)
+(* __flatcc_json_printer_flush_dynamic_buffer.  The size of the new block is not the printer's business: it is
+   read from the oracle (the allocation policy of the pinned tree, size * 2, when the oracle is silent), so the
+   theorems hold for every policy.  What the rest of the printer needs from an enlargement is that the reserve is
+   available again above everything the old block could hold: new >= old + reserve; [obad] records a size that
+   does not promise this.  0 = realloc failed: overflow error, content dropped, the old block stays. *)
+Definition next_size (s : st) : Z := match orc s with [] => 2 * size s | n :: _ => n end.
+Definition fails (s : st) : bool := match orc s with n :: _ => n =? 0 | [] => false end.
 Definition flush_dyn (C : cfg) (s : st) : st :=
   let s0 := poke0 s in
   if p s <? fsz s then s0
-  else poke0 (mkst (md s) (2 * size s) (2 * size s - RSV C) (p s) (cur s) (total s) (err s) (out s) (viol s0) (term s0) (tr s)).
+  else
+    let n := next_size s in
+    if fails s
+    then poke0 (mkst (md s) (size s) (fsz s) 0 [] (total s + p s) (if err s =? 0 then PE_overflow else err s)
+                     (out s) (viol s0) (term s0) (tr s) (tl (orc s)) (obad s))
+    else poke0 (mkst (md s) n (n - RSV C) (p s) (cur s) (total s) (err s) (out s) (viol s0) (term s0) (tr s)
+                     (tl (orc s)) (obad s || negb (size s + RSV C <=? n))).
 
 (* ctx->flush(ctx, all) *)
 Definition flushc (C : cfg) (all : bool) (s : st) : st :=
@@ -204,21 +219,29 @@ Definition text (ops : list prim) : list Z := flat_map bytes ops.
 
 (* ---------------------------------------------------------------- init functions *)
 (* flatcc_json_printer_init_buffer (buffer_size >= reserve), init_dynamic_buffer, init *)
-Definition init (C : cfg) (m : pmode) (sz : Z) : st :=
+Definition dyn_size (C : cfg) (sz : Z) : Z :=
+  let sz := if sz =? 0 then PRINT_DYN_BUFFER_SIZE else sz in if sz <? RSV C then RSV C else sz.
+Definition init (C : cfg) (m : pmode) (sz : Z) (o : list Z) : st :=
   match m with
-  | Fixed => mkst Fixed sz (sz - RSV C) 0 [] 0 0 [] false false []
-  | Dynamic =>
-    let sz := if sz =? 0 then PRINT_DYN_BUFFER_SIZE else sz in
-    let sz := if sz <? RSV C then RSV C else sz in
-    mkst Dynamic sz (sz - RSV C) 0 [] 0 0 [] false false []
-  | File => mkst File PRINT_BUFFER_SIZE PRINT_FLUSH_SIZE 0 [] 0 0 [] false false []
+  | Fixed => mkst Fixed sz (sz - RSV C) 0 [] 0 0 [] false false [] o false
+  | Dynamic => mkst Dynamic (dyn_size C sz) (dyn_size C sz - RSV C) 0 [] 0 0 [] false false [] o false
+  | File => mkst File PRINT_BUFFER_SIZE PRINT_FLUSH_SIZE 0 [] 0 0 [] false false [] o false
   end.
+
+(* the side condition on the oracle: every block handed back is at least the previous one plus the reserve *)
+Fixpoint good_orc (R sz : Z) (l : list Z) : Prop :=
+  match l with
+  | [] => True
+  | n :: t => if n =? 0 then good_orc R sz t else sz + R <= n /\ good_orc R n t
+  end.
+Definition nofail (l : list Z) : bool := forallb (fun n => negb (n =? 0)) l.
 
 (* what the caller observes: return value of *_as_root (-1 on error, else total + pending), the output text
    (file content followed by the unflushed bytes), zero termination, and whether a store went outside *)
-Record result := mkres { r_ret : Z; r_text : list Z; r_term : bool; r_viol : bool; r_err : Z; r_trace : list Z }.
+Record result := mkres { r_ret : Z; r_text : list Z; r_term : bool; r_viol : bool; r_err : Z; r_trace : list Z;
+                         r_obad : bool; r_orc_left : Z }.
 Definition observe (s : st) : result :=
-  mkres (if err s =? 0 then total s + p s else -1) (frev (cur s ++ out s)) (term s) (viol s) (err s) (frev (tr s)).
+  mkres (if err s =? 0 then total s + p s else -1) (frev (cur s ++ out s)) (term s) (viol s) (err s) (frev (tr s)) (obad s) (len (orc s)).
 
 Definition cfg_fixed (r : Z) : cfg := mkcfg r true true.      (* the repaired code *)
 Definition cfg_current (r : Z) : cfg := mkcfg r false false.  (* the pinned tree *)
